@@ -6,6 +6,7 @@
 #include <etl/_config/all.hpp>
 
 #include <etl/_type_traits/bool_constant.hpp>
+#include <etl/_type_traits/is_destructible.hpp>
 
 namespace etl {
 
@@ -27,10 +28,10 @@ inline constexpr bool is_trivially_destructible_v = __is_trivially_destructible(
 #else
 
 template <typename T>
-struct is_trivially_destructible : bool_constant<__has_trivial_destructor(T)> { };
+struct is_trivially_destructible : bool_constant<is_destructible_v<T> and __has_trivial_destructor(T)> { };
 
 template <typename T>
-inline constexpr bool is_trivially_destructible_v = __has_trivial_destructor(T);
+inline constexpr bool is_trivially_destructible_v = is_destructible_v<T> and __has_trivial_destructor(T);
 
 #endif
 } // namespace etl
